@@ -94,9 +94,29 @@ fn big_fetch(rng: &mut Rng, len: usize) -> Vec<u8> {
 }
 
 pub fn gen_history_stream(rng: &mut Rng, count: usize, max_lit: usize) -> Vec<u8> {
+    gen_history_stream_nv(rng, count, max_lit, false)
+}
+
+/// `near_valid`: some lines are what a quirky server might send instead of a response -- a response ended by a bare
+/// LF or a bare CR, a blank line, a line with a stray byte.  The decoder answers an error there (the history ends);
+/// the frames delivered before must stay intact all the same.
+pub fn gen_history_stream_nv(rng: &mut Rng, count: usize, max_lit: usize, near_valid: bool) -> Vec<u8> {
     let sizes = [0usize, 1, 100, 700, 8191, 8192, 9000, 40000, 70000, 150000, 300000, 1048576];
     let mut s = vec![];
-    for _ in 0..count {
+    for i in 0..count {
+        if near_valid && i > 0 && rng.chance(1, 6) {
+            let text = *rng.pick(&["notice one: quota at 91 percent", "notice two: scheduled downtime!", "x", "[ALERT] disk"]);
+            match rng.below(5) {
+                0 => s.extend_from_slice(format!("* OK {}\n", text).as_bytes()),
+                1 => s.extend_from_slice(format!("* {} EXISTS\n", rng.below(99)).as_bytes()),
+                2 => s.extend_from_slice(b"\r\n"),
+                3 => s.extend_from_slice(format!("* OK {}\r", text).as_bytes()),
+                _ => s.extend_from_slice(format!("* NO {}\x00\r\n", text).as_bytes()),
+            }
+            // ... and the server goes on
+            s.extend_from_slice(format!("* {} EXISTS\r\n* OK {}\n* {} RECENT\r\n", rng.below(99), text, rng.below(9)).as_bytes());
+            continue;
+        }
         if rng.chance(1, 7) {
             let ok: Vec<usize> = sizes.iter().copied().filter(|x| *x <= max_lit).collect();
             let len = *rng.pick(&ok);
@@ -113,6 +133,11 @@ pub fn gen_history_stream(rng: &mut Rng, count: usize, max_lit: usize) -> Vec<u8
 
 /// one history; returns (events, final frames, verdict)
 pub fn run_history(rng: &mut Rng, stream: &[u8], keep_num: usize, keep_den: usize) -> (String, String, String) {
+    run_history_tol(rng, stream, keep_num, keep_den, false)
+}
+
+/// `tolerate_errors`: a decoder error ends the receiving part of the history without being a verdict
+pub fn run_history_tol(rng: &mut Rng, stream: &[u8], keep_num: usize, keep_den: usize, tolerate_errors: bool) -> (String, String, String) {
     let waker = Waker::noop();
     let mut cx = Context::from_waker(&waker);
     // chunking: bursts, packets, single bytes
@@ -183,6 +208,7 @@ pub fn run_history(rng: &mut Rng, stream: &[u8], keep_num: usize, keep_den: usiz
         match item {
             Poll::Pending => continue,
             Poll::Ready(None) => break,
+            Poll::Ready(Some(Err(_))) if tolerate_errors => break,
             Poll::Ready(Some(Err(e))) => {
                 verdict = Some(format!("decoder error on a valid stream: {}", &e.to_string()[..e.to_string().len().min(120)]));
                 break;
@@ -288,9 +314,10 @@ pub fn main(args: &[String]) {
     let mut rng = Rng::new(seed);
     for k in 0..n {
         let count = 1 + rng.below(max_count);
-        let stream = gen_history_stream(&mut rng, count, max_lit);
-        let (kn, kd) = *rng.pick(&[(1usize, 1usize), (1, 2), (1, 8), (1, 40)]);
-        let r = std::panic::catch_unwind(std::panic::AssertUnwindSafe(|| run_history(&mut rng, &stream, kn, kd)));
+        let near_valid = k % 4 == 3;
+        let stream = gen_history_stream_nv(&mut rng, count, max_lit, near_valid);
+        let (kn, kd) = if near_valid { (1usize, 1usize) } else { *rng.pick(&[(1usize, 1usize), (1, 2), (1, 8), (1, 40)]) };
+        let r = std::panic::catch_unwind(std::panic::AssertUnwindSafe(|| run_history_tol(&mut rng, &stream, kn, kd, near_valid)));
         match r {
             Ok((ev, fin, v)) => println!("{}\t{}\t{}", ev, fin, v),
             Err(_) => println!("history {}\t\tBAD panic", k),
